@@ -91,6 +91,10 @@ def check_case(ctx, case):
             dec_none = jaxtyped(typechecker=None)(target)
         if case["ntc"] == "above":
             dec = typing.no_type_check(dec)
+        if case["ntc"] == "late-below":
+            # the function is marked AFTER it was decorated (e.g. by a test suite switching checks off for one helper): the mark is on the
+            # wrapped function, the wrapper consults it at call time
+            typing.no_type_check(target)
         always_off = case["ntc"] != "none"
         flags = set()
         ncalls = 0
@@ -285,7 +289,7 @@ def c19_case(draw):
     return {
         "params": params, "callable": kind, "fname": draw(st.sampled_from(["f", "g", "T0"])),
         "checker": draw(st.sampled_from(["typeguard", "beartype"])),
-        "ntc": draw(st.sampled_from(["none", "none", "none", "above", "below"])),
+        "ntc": draw(st.sampled_from(["none", "none", "none", "above", "below", "late-below"])),
         "initial": list(draw(valid)), "ops": ops,
     }
 
